@@ -36,7 +36,8 @@ def mk(text, tags, nontrivial=True, analyses=False):
 
 def cases(rng, tier):
     yield mk("", {"kind": "empty"})
-    for k in ("none", "int", "bytes", "list", "strsub", "float", "tuple"):
+    for k in ("none", "int", "bytes", "list", "strsub", "float", "tuple", "false", "true", "nan", "inf", "strlike", "seqobj", "dict", "set",
+              "complex", "zero"):
         yield Case(["mkother " + k], {"kind": "nonstring"})
     for n in (1, 2, 5):
         for c in (" ", "\t", "\n", " ", " \t\r\n"):
